@@ -18,7 +18,7 @@ CHECKS = {
     "C07": dict(
         level="fault_enumeration", ref="3/C07",
         technique="fault enumeration steered and judged by TLA+: TLC-generated histories x every file-system operation of the real store as crash point (strict in-memory FS via hook H1); crash traces validated by TLC against the contract (Atomic/Durable/RebuildSafe/Repairable); rebuild phases with crashes model-checked in the design spec",
-        text="Every mutating FS operation (create/write/sync/rename/remove) issued by the real store during each explored history is used as the point where durable storage stops; the recovered state and all lookups, before and after a re-run of the rebuild, are validated by TLC against the crash contract. Exhaustive over crash points for the explored histories; histories are TLC behaviours of the design spec plus seeded ones, plus one >1000-signature history whose rebuild really chunks.",
+        text="Every mutating FS operation (create/write/sync/rename/remove) issued by the real store during each explored history is used as the point where durable storage stops; the recovered state and all lookups, before and after a re-run of the rebuild, are validated by TLC against the crash contract. Exhaustive over crash points for the explored histories; histories are TLC behaviours of the design spec plus seeded ones; the large histories (a >1000-signature rebuild with unpadded IDs, a 12 MiB batch, imports of 1000/2000 signatures) use stratified crash points plus the points right after the last call returned, the end of shutdown and every operation of a final rebuild.",
         note=TRUST + "; Pebble's strict MemFS is the durability model (only synced data survives); torn single writes are not modelled"),
     "C18": dict(
         level="model_checking", ref="3/C18",
